@@ -8,6 +8,9 @@ main() decides), start, in <hex>, elapse (sleeps past the configured timeout), r
 After every op a marker `-1 ? :stats2` is sent and output is read up to its terminator line `s`;
 the marker's own reply is cut off.  Scenarios for this tier contain no info requests of their own.
 """
+import os as _os, sys as _sys
+_sys.path.insert(0, _os.path.join(_os.path.dirname(_os.path.abspath(__file__)), ".."))
+from vlib.tagres import TagResolver  # noqa: E402
 import os
 import select
 import shutil
@@ -98,6 +101,7 @@ class Daemon:
 
 def run_case(lines):
     mods, conf_body, timeout_s = 0, b"", 0
+    tr = TagResolver()      # symbolic routing tags, same rules as harness/h_proto.c
     d = None
     wd = tempfile.mkdtemp(prefix="e2e_", dir=os.getcwd())
     dead = False
@@ -130,10 +134,13 @@ def run_case(lines):
             elif d is None:
                 print("bad-op")
             elif f[0] == "in":
-                out = d.op(unhx(f[1]))
+                data = tr.resolve(unhx(f[1]))
+                tr.fed(data)
+                out = d.op(data)
                 if out is None:
                     print(d.fault()); dead = True
                 else:
+                    tr.out(out)
                     print("out " + hx(out))
             elif f[0] == "elapse":
                 time.sleep(timeout_s + 0.35 if timeout_s else 0.05)
